@@ -21,6 +21,7 @@ type UnitSpec struct {
 	Tags        []string `json:"tags,omitempty"`         // keep only obligations carrying one of these tags (contract mode)
 	Kinds       []string `json:"kinds,omitempty"`        // keep only these kinds
 	AllUntagged bool     `json:"all_untagged,omitempty"` // also keep untagged obligations
+	AllInvariants bool   `json:"all_invariants,omitempty"` // also prove the loop invariants tagged for other properties (this unit assumes them at the loop heads)
 	Locks       bool     `json:"locks,omitempty"`
 	NonNil      []string `json:"nonnil,omitempty"` // parameters assumed non-nil (sweep mode)
 	AllocBound  string   `json:"alloc_bound,omitempty"`
@@ -274,7 +275,7 @@ func filterObls(us UnitSpec, obls []*Obligation) []*Obligation {
 				if !us.AllUntagged {
 					continue
 				}
-			} else if !o.hasTag(us.Tags) {
+			} else if !o.hasTag(us.Tags) && !(us.AllInvariants && (o.Kind == "inv-init" || o.Kind == "inv-step")) {
 				continue
 			}
 		}
